@@ -341,6 +341,10 @@ def parse_statement(line):
             return ("call", parse_place(dest), callee, ops, bbnum(t.get("return", "")) if "return" in t else None)
         except ValueError:
             return ("rawterm", body)
+    # diverging call whose only target is a cleanup block: `_8 = begin_panic(..) -> bb72`
+    m = re.match(r"^(.+?) = (.*(?:begin_panic|panic_fmt|panic\b|unwrap_failed|expect_failed).*)\((.*)\) -> bb\d+$", body, re.S)
+    if m and _balanced(m.group(1)):
+        return ("diverge", m.group(2).strip() + "(" + m.group(3)[:80] + ")")
     # diverging call without destination target, e.g. `_x = panic(...) -> unwind continue`
     m = re.match(r"^(.+?) = (.+)\((.*)\) -> unwind .*$", body, re.S)
     if m:
